@@ -260,7 +260,9 @@ def parse_google_docstr_examples(docstr, callname=None, modpath=None, lineno=1,
         xdoctest.exceptions.DoctestParseError: if an error occurs in parsing
     """
     try:
-        blocks = docscrape_google.split_google_docblocks(docstr)
+        # Tabs are expanded like the doctest parser does, block indentation
+        # is measured in columns.
+        blocks = docscrape_google.split_google_docblocks(docstr.expandtabs())
     except exceptions.MalformedDocstr:
         print('ERROR PARSING {} GOOGLE BLOCKS IN {} ON line {}'.format(
             callname, modpath, lineno))
